@@ -54,6 +54,13 @@ func checkPreauthEtypeAfterHint(r *vh.Run, viol func(fp, what string, extra map[
 		if prev.Req == nil || rq.Req == nil || prev.Req.MsgType != 10 || rq.Req.MsgType != 10 || (prev.ReplyCode != 25 && prev.ReplyCode != 24) {
 			continue
 		}
+		// only the retry of the SAME exchange answers the hint: gokrb5 re-sends the request it was refused with (same nonce). An
+		// AS-REQ that merely comes next in the KDC's log - the pre-emptive first guess of another login (a client that assumes
+		// pre-authentication guesses an etype before it has seen any hint), a refresh goroutine - is not judged here.
+		if prev.Req.Body.Nonce != rq.Req.Body.Nonce {
+			r.Inc("observe_as_req_after_a_hint_belongs_to_another_exchange")
+			continue
+		}
 		hinted := int32(0)
 		for _, e := range prev.Req.Body.Etypes {
 			if kcrypto.KeyLen(e) == 0 {
